@@ -203,6 +203,8 @@ def cls_values():
             'SupportsAbs': [1, -1.5, 1j], 'MappingView': [{1: 2}.keys(), {}.values(), {1: 2}.items()],
             'RePatternStr': [e['_re'].compile('a'), e['_re'].compile(b'b')], 'ReMatchStr': [e['_re'].match('a', 'a')],
             'PathLikeStr': [e['_pathlib'].PurePosixPath('a')], 'CtxMgrInt': [e['WithCtx']()],
+            'RealBox': [e['RealBox'](e['RealBox'](1)), e['RealBox'](e['RealBox'](2)), e['RealBox'](1),
+                        e['RealBox'](e['RealBox'](e['RealBox'](1))), e['RealBox'](e['RealBox'](1))],
         }
     return _CLS_VALUES
 
@@ -1180,6 +1182,14 @@ class AnnotatedH(Node):
         '~Is[pred_even]': lambda x: not hintenv.pred_even(x),
         'Is[pred_not_none] & Is[pred_true]': lambda x: x is not None,
         'Is[pred_even] | Is[pred_truthy]': lambda x: hintenv.pred_even(x) or hintenv.pred_truthy(x),
+        # negated compounds (operator precedence in the generated code: not (a and b) vs (not a) and b)
+        '~(Is[pred_even] & Is[pred_truthy])': lambda x: not (hintenv.pred_even(x) and hintenv.pred_truthy(x)),
+        '~(IsInstance[int] | Is[pred_sized_lt3])': lambda x: not (isinstance(x, int) or hintenv.pred_sized_lt3(x)),
+        '~(~Is[pred_truthy] & IsInstance[int, str]) | IsEqual[1]':
+            lambda x: (not ((not hintenv.pred_truthy(x)) and isinstance(x, (int, str)))) or _safe_eq(x, 1),
+        # an attribute validator nested in one of the same attribute name, then a sibling on the OUTER value
+        "IsAttr['real', IsAttr['real', IsEqual[1]] & IsInstance[RealBox]]":
+            lambda x: hasattr(x, 'real') and hasattr(x.real, 'real') and _safe_eq(x.real.real, 1) and isinstance(x.real, hintenv.RealBox),
         'IsInstance[int, str]': lambda x: isinstance(x, (int, str)),
         '~IsInstance[bool]': lambda x: not isinstance(x, bool),
         'IsEqual[1]': lambda x: _safe_eq(x, 1),
@@ -1248,7 +1258,7 @@ def _safe_eq(a, b):
 _LEAF_CLASSES = ['int', 'str', 'bool', 'float', 'complex', 'bytes', 'A', 'B', 'C', 'D', 'Col',
                  'IntSub', 'list', 'dict', 'tuple', 'set', 'frozenset', 'type', 'Hashable', 'Sized',
                  'SupportsInt', 'SupportsIndex', 'SupportsAbs', 'MappingView', 'RePatternStr', 'ReMatchStr', 'PathLikeStr',
-                 'CtxMgrInt']
+                 'CtxMgrInt', 'RealBox']
 _HASHABLE_LEAF = ['int', 'str', 'bool', 'float', 'bytes', 'A', 'B', 'Col', 'IntSub', 'tuple', 'frozenset', 'Hashable']
 _LITERAL_SRCS = ['0', '1', '2', '-1', 'True', 'False', "'a'", "'bc'", "''", "b'x'", 'None',
                  'Col.RED', 'Col.GREEN']
